@@ -1,16 +1,19 @@
-(* C04 - GameSpy 1/2/3 replies are decoded completely (GameSpy 2: proved; 1 and 3: PARTIAL as theorems).
+(* C04 - GameSpy 1/2/3 replies are decoded completely (GameSpy 2: proved at the
+   query level; GameSpy 3: proved for the payloads of all packets; GameSpy 1: PARTIAL).
 
    The full statement - for every server state s,
      gs1_query / gs2_query / gs3_query on the script of s = Ok (expected s)
    - is proved for GameSpy 2 (c04_gs2_decoded_completely: every variable, every
    player and team cell, any column order, unknown columns, unknown variables).
-   For GameSpy 1 and 3 it is kept below as c04_full_statement_*; proved for all
-   inputs there: the '\key\value' grammar of GameSpy 1 is decoded exactly, pair
-   by pair and in order, and the GameSpy 3 data request carries the server's
-   challenge; the rest is checked by evaluation on generated states in the
-   correspondence run (Examples here), not proved. *)
+   For GameSpy 3 the decoding of the packet payloads is proved
+   (c04_gs3_payloads_decoded_completely: all variables, all players over any
+   number of packets, re-sent names, teams); the step from datagrams to payloads
+   (header, packet numbers) is covered by C08's reassembly theorem and by the
+   correspondence run, not proved here.  For GameSpy 1 the '\key\value' grammar
+   is decoded exactly, pair by pair and in order; the rest is checked by
+   evaluation on generated states in the correspondence run (Examples here). *)
 From GD Require Import Base.Prelude Model.Strings Model.StrOps Model.Buffer Model.Net Model.Valve Model.Gamespy.
-From GD Require Import Spec.Rand Spec.ValveSpec Spec.QuakeSpec Spec.GamespySpec Proofs.Str Proofs.GamespyProofs Proofs.Gamespy2Roundtrip.
+From GD Require Import Spec.Rand Spec.ValveSpec Spec.QuakeSpec Spec.GamespySpec Proofs.Str Proofs.GamespyProofs Proofs.Gamespy2Roundtrip Proofs.Jc2mRoundtrip Proofs.Gamespy3Roundtrip Proofs.Gamespy3Reply.
 
 Theorem c04_gs1_pairs_partial : forall k v l m,
   Forall (fun kv => no_delim 92 (fst kv) /\ no_delim 92 (snd kv)) ((k, v) :: l) ->
@@ -52,6 +55,40 @@ Theorem c04_gs2_decoded_completely : forall port s, wf_s2 s = true -> (length (s
   fst (gs2_query port None (net_init (map Datagram [s2_reply s]) [] [])) = Ok (s2_expected s).
 Proof. exact gs2_query_roundtrip. Qed.
 Print Assumptions c04_gs2_decoded_completely.
+
+(* GameSpy 3: what the server sends is s3_payloads, each behind a packet header;
+   the client decodes those payloads to exactly the server state: every
+   variable, every player over all packets (sections with start indices, a name
+   cut at a packet end and sent again in the next one), every team. *)
+Theorem c04_gs3_packets_are_payloads : forall s,
+  s3_packets s = map (fun ib => [0; 0; 0; 0; 1] ++ cstr (str "splitnum")
+                                ++ [(fst ib + (if Nat.eqb (S (N.to_nat (fst ib))) (length (s3_payloads s)) then 128 else 0)); 0] ++ snd ib)
+                     (indexed 0 (s3_payloads s)).
+Proof. exact s3_packets_payloads. Qed.
+Print Assumptions c04_gs3_packets_are_payloads.
+
+Theorem c04_wf_s3_means : forall s,
+  wf_s3 s = (no_nul (s3_name s) && no_nul (s3_map s) && no_nul (s3_mode s) && no_nul (s3_ver s) && no_nul (snd (s3_password s))
+             && (s3_max s <? 4294967296) && optb (fun n => n <? 256) (s3_min s) && optb (fun n => n <? 4294967296) (s3_num s)
+             && optb (fun v => no_nul (snd v) && tour_means v) (s3_tournament s)
+             && extras_ok_for s3_keys (s3_extras s)
+             && forallb p3_ok (s3_players s) && (length (s3_players s) <? 256)%nat
+             && forallb t3_ok (s3_teams s)
+             && match password_means (snd (s3_password s)) with Some b => Bool.eqb b (fst (s3_password s)) | None => false end).
+Proof. exact (fun s => eq_refl). Qed.
+Print Assumptions c04_wf_s3_means.
+
+Theorem c04_gs3_payloads_decoded_completely : forall s, wf_s3 s = true -> gs3_build (s3_payloads s) = Ok (s3_expected s).
+Proof. exact gs3_roundtrip. Qed.
+Print Assumptions c04_gs3_payloads_decoded_completely.
+
+(* the hypotheses are met by a server with three packets, a cut name sent again, teams and its own variable *)
+Example c04_ex_gs3_wf : wf_s3 ex_s3 = true /\ (length (s3_payloads ex_s3) = 3)%nat.
+Proof. exact ex_s3_wf. Qed.
+
+(* a test, not a theorem: the states the correspondence run generates satisfy wf_s3, so the theorem speaks about them *)
+Example c04_ex_gs3_generated_wf : forallb (fun seed => wf_s3 (fst (gen_s3 seed))) [1; 2; 3; 4; 5; 6; 7; 8; 9; 10; 11; 12; 13; 14; 15; 16; 17; 18; 19; 20] = true.
+Proof. vm_compute. reflexivity. Qed.
 
 (* the full statements (not proved; decided per generated state by the check) *)
 Definition c04_full_statement_gs1 (s : s1_state) : Prop :=
